@@ -387,8 +387,10 @@ func canonKey(k reflect.Value) (reflect.Value, error) {
 		return reflect.ValueOf(int64(k.Uint())), nil
 	case reflect.Float32, reflect.Float64:
 		return reflect.ValueOf(k.Float()), nil
-	case reflect.String, reflect.Bool:
-		return reflect.ValueOf(k.Interface()), nil
+	case reflect.String:
+		return reflect.ValueOf(k.String()), nil // also for named string types
+	case reflect.Bool:
+		return reflect.ValueOf(k.Bool()), nil
 	}
 	return k, fmt.Errorf("comparator: unsupported map key kind %v", k.Kind())
 }
